@@ -123,15 +123,36 @@ namespace BW.Proofs.TextStable
 theorem node_stable (s : Bytes) (n : Node) (h : parseNode s = some n) : parseNode (printNode n) = some n :=
   parseNode_printNode n (parseNode_ok s n h)
 
-/-- Predicates: every predicate prints to text that parses back to it (whatever text it came from). -/
-theorem pred_stable (L : Leaf) (hL : LeafLaws L) (s : Bytes) (p : Pred) (_h : parsePred L s = some p) :
-    parsePred L (printPred L p) = some p := parsePred_printPred L hL p
+/-- What the predicate parser yields has an anchor the format can write (the time parser yields no other). -/
+theorem parsePred_ok (L : Leaf) (hL : LeafLaws L) (s : Bytes) (p : Pred) (h : parsePred L s = some p) : PredOK L p := by
+  unfold parsePred at h
+  simp only at h
+  split at h
+  · cases h
+  · split at h
+    · cases h
+    · split at h
+      · cases h
+      · split at h
+        · cases h
+        · split at h
+          · cases h
+          · split at h
+            · cases h; trivial
+            · simp only [Option.map_eq_some_iff] at h
+              obtain ⟨t, ht, e⟩ := h
+              subst e
+              exact hL.time_parsed_ok _ t ht
+
+/-- Predicates: what the parser accepts prints to text that parses back to it. -/
+theorem pred_stable (L : Leaf) (hL : LeafLaws L) (s : Bytes) (p : Pred) (h : parsePred L s = some p) :
+    parsePred L (printPred L p) = some p := parsePred_printPred L hL p (parsePred_ok L hL s p h)
 
 theorem lit_stable (L : Leaf) (hL : LeafLaws L) (s : Bytes) (l : Lit) (h : parseLit L s = some l) :
     parseLit L (printLit L l) = some l := by
   exact parseLit_printLit L hL l (parseLit_ok L s l h)
 
-theorem parseObject_ok (L : Leaf) (s : Bytes) (o : Obj) (h : parseObject L s = some o) : ObjOK o := by
+theorem parseObject_ok (L : Leaf) (hL : LeafLaws L) (s : Bytes) (o : Obj) (h : parseObject L s = some o) : ObjOK L o := by
   unfold parseObject parseObjectWith at h
   cases hn : parseNode s with
   | some n =>
@@ -145,11 +166,11 @@ theorem parseObject_ok (L : Leaf) (s : Bytes) (o : Obj) (h : parseObject L s = s
       exact parseLit_ok L s l hl
     | none =>
       simp only [hl, Option.map_eq_some_iff] at h
-      obtain ⟨p, _, e⟩ := h
-      subst e; trivial
+      obtain ⟨p, hp, e⟩ := h
+      subst e; exact parsePred_ok L hL s p hp
 
 theorem obj_stable (L : Leaf) (hL : LeafLaws L) (s : Bytes) (o : Obj) (h : parseObject L s = some o) :
     parseObject L (printObj L o) = some o :=
-  parseObject_printObj L hL o (parseObject_ok L s o h)
+  parseObject_printObj L hL o (parseObject_ok L hL s o h)
 
 end BW.Proofs.TextStable
